@@ -72,22 +72,32 @@ pub fn run() -> i32 {
     let mut ctx = Ctx::new("C01", "exploration");
     let seed = ctx.seed;
     let lens = lens(ctx.tier);
-    ctx.rule = format!("full product: every encrypt form ({} forms: classic combined/detached/in-place, precomputed, sealed, object API with stack and Vec containers) x key/nonce alphabet (5x5 for secret-key forms, 4 pairs for public-key forms) x every message length ({} lengths) x 4 content classes, bytes compared with libsodium; every open form ({} forms) on the libsodium-made ciphertext of every cell must return the message; libsodium must open dryoc's output; sealed boxes additionally with the real RNG, cross-opened both ways; non-trivial = cell executed in both implementations (all)", ENC.len(), lens.len(), OPEN.len());
+    ctx.rule = format!("full product: every encrypt form ({} forms: classic combined/detached/in-place, precomputed, sealed, object API with stack and Vec containers) x key/nonce alphabet (5x5 for secret-key forms, 4 pairs for public-key forms) x every message length ({} lengths) x 4 content classes, bytes compared with libsodium; every open form ({} forms) on the libsodium-made ciphertext of every cell must return the message; libsodium must open dryoc's output; sealed boxes additionally with the real RNG, cross-opened both ways; heap container forms (nightly build) on the reduced grid lengths 0..=130 + {{1023..1025, 4095..4097}} x 1 key set x 2 contents, locked container forms (several mlock calls each) on lengths {{0,1,15,16,17,63,64,65,128,1024,4097}}; non-trivial = cell executed in both implementations (all)", enc_all().len(), lens.len(), open_all().len());
     ctx.assume("libsodium 1.0.18 is the reference; key/nonce/message VALUES outside the stated alphabets are not covered, lengths and forms are covered completely up to the bound");
     ctx.assume("sealed-box ephemeral key is pinned through RNG seam H3 for the exact-bytes comparison");
 
     // encrypt forms
     let mut units: Vec<(usize, usize, usize)> = vec![];
-    for (i, e) in ENC.iter().enumerate() {
+    for (i, e) in enc_all().iter().enumerate() {
         for (k, n) in key_sets(e.1) {
             units.push((i, k, n));
         }
     }
     let st = par_units(&units, |&(i, ki, ni), st| {
-        let (name, fam, _) = ENC[i];
+        let (name, fam, _) = enc_all()[i];
         let ks = Keys::make(seed, ki, ni);
+        let heavy = is_heavy(name);
+        if heavy && (ki, ni) != key_sets(fam)[0] {
+            return;
+        }
         for &len in &lens {
-            let contents = if len > 70000 { 1 } else { 4 };
+            if heavy && !(len <= 130 || [1023usize, 1024, 1025, 4095, 4096, 4097].contains(&len)) {
+                continue;
+            }
+            if weight(name) == 2 && ![0usize, 1, 15, 16, 17, 63, 64, 65, 128, 1024, 4097].contains(&len) {
+                continue;
+            }
+            let contents = if len > 70000 { 1 } else if heavy { 2 } else { 4 };
             for ci in 0..contents {
                 let m = cval(seed, ci, len);
                 let r = check_enc(name, fam, &ks, &m);
@@ -110,16 +120,26 @@ pub fn run() -> i32 {
 
     // open forms on libsodium-made ciphertexts + libsodium opens dryoc's
     let mut units: Vec<(usize, usize, usize)> = vec![];
-    for (i, o) in OPEN.iter().enumerate() {
+    for (i, o) in open_all().iter().enumerate() {
         for (k, n) in key_sets(o.1) {
             units.push((i, k, n));
         }
     }
     let st = par_units(&units, |&(i, ki, ni), st| {
-        let (name, fam, _) = OPEN[i];
+        let (name, fam, _) = open_all()[i];
         let ks = Keys::make(seed, ki, ni);
+        let heavy = is_heavy(name);
+        if heavy && (ki, ni) != key_sets(fam)[0] {
+            return;
+        }
         for &len in &lens {
-            let contents = if len > 70000 { 1 } else { 4 };
+            if heavy && !(len <= 130 || [1023usize, 1024, 1025, 4095, 4096, 4097].contains(&len)) {
+                continue;
+            }
+            if weight(name) == 2 && ![0usize, 1, 15, 16, 17, 63, 64, 65, 128, 1024, 4097].contains(&len) {
+                continue;
+            }
+            let contents = if len > 70000 { 1 } else if heavy { 2 } else { 4 };
             for ci in 0..contents {
                 let m = cval(seed, ci, len);
                 let wire = ref_wire(fam, &ks, &m);
@@ -153,7 +173,10 @@ pub fn run() -> i32 {
         }
         let ks = Keys::make(seed, 3, 2);
         let m = cval(seed, 3, len);
-        for e in ENC.iter().filter(|e| e.1 == fam) {
+        for e in enc_all().iter().filter(|e| e.1 == fam) {
+            if is_heavy(e.0) && (len > 130 || (weight(e.0) == 2 && len % 16 > 1)) {
+                continue;
+            }
             let wire = (e.2)(&ks, &m);
             let ok = ref_open(fam, &ks, &wire).as_deref() == Some(&m[..]);
             st.eval(&(2u8, e.0, len), true, if ok { "sodium-opens-dryoc" } else { "sodium-rejects-dryoc" });
@@ -174,7 +197,7 @@ pub fn run() -> i32 {
             // libsodium seals -> every dryoc unseal form opens
             let w = sodium::box_seal(&m, &ks.pk_b);
             let mut ok2 = true;
-            for o in OPEN.iter().filter(|o| o.1 == Fam::Seal) {
+            for o in open_all().iter().filter(|o| o.1 == Fam::Seal) {
                 if check_open(o.0, &ks, &w, &m).is_some() {
                     ok2 = false;
                 }
